@@ -98,6 +98,36 @@ MUTATORS = {'append', 'extend', 'insert', 'pop', 'remove', 'clear', 'update', 'p
 VALUE_CLASSES = {'Transaction', 'Order', 'PortfolioEvent', 'Position', 'SimulationEvent', 'Equity', 'Cash'}
 
 
+def _writes_self(fn):
+    """fn assigns, deletes or grows in place an attribute of self (directly)"""
+    r = getattr(fn, '_writes_self', None)
+    if r is None:
+        r = False
+        for n in ast.walk(fn.node):
+            tg = []
+            if isinstance(n, ast.Assign):
+                tg = n.targets
+            elif isinstance(n, (ast.AugAssign, ast.AnnAssign)):
+                tg = [n.target]
+            elif isinstance(n, ast.Delete):
+                tg = n.targets
+            for t in tg:
+                for x in ast.walk(t):
+                    if isinstance(x, ast.Attribute) and isinstance(x.value, ast.Name) and x.value.id == 'self':
+                        r = True
+            if isinstance(n, ast.Call) and isinstance(n.func, ast.Attribute) and n.func.attr in MUTATORS:
+                b = n.func.value
+                while isinstance(b, ast.Subscript):
+                    b = b.value
+                if isinstance(b, ast.Attribute) and isinstance(b.value, ast.Name) and b.value.id == 'self':
+                    r = True
+        try:
+            fn._writes_self = r
+        except Exception:
+            pass
+    return r
+
+
 def default_policy(caller, callee, depth):
     """Inline private helpers, static/class methods and properties up to a small depth."""
     if depth > 6:
@@ -107,8 +137,9 @@ def default_policy(caller, callee, depth):
     if callee.name.startswith('_') and not callee.name.startswith('__'):
         return True
     if callee.cls is not None and (any(ast.unparse(d.func if isinstance(d, ast.Call) else d).split('.')[-1] == 'dataclass' for d in callee.cls.node.decorator_list)
-                                   or any(b.split('.')[-1] == 'NamedTuple' for b in callee.cls.base_names)) and not callee.name.startswith('__'):
-        return True            # methods of pure-data classes are part of the data's description
+                                   or any(b.split('.')[-1] == 'NamedTuple' for b in callee.cls.base_names)) and not callee.name.startswith('__') \
+            and not _writes_self(callee):
+        return True            # read-only methods of pure-data classes are part of the data's description (state-changing ones stay calls)
     if callee.cls is None and getattr(callee, 'parent', None) is None:
         # a module-level function that is one returned expression (a key formatter, a unit conversion) is read through like the expression it names
         body = callee.body()
